@@ -357,6 +357,21 @@ def run(ctx):
             ok = v.k == "param" and v.a[0] == 2
         ctx.ob("R-C17.4", ws, "counter-raised-by-pool-size", ok, "active_thread_counter += pool_size before spawning" if ok else "the thread counter is not raised by the number of spawned workers")
 
+    # ---- R-C17.4 (cont.) what drop calls to break the cycles actually empties the containers that hold keyspace handles
+    jmc = ctx.fn("journal::manager::JournalManager::clear", "R-C17.4")
+    if jmc:
+        ogj = ctx.og(jmc)
+        okc = any(A.cname(t).endswith("Vec::<T, A>::clear") and any(x.k == "field" and x.a[1] == "items" for x in A.walk(ogj.of_operand(t["args"][0]))) for b, t in jmc.calls()) \
+            or bool(A.field_assigns(jmc, "items"))
+        ctx.ob("R-C17.4", jmc, "journal-manager-clear-empties-the-sealed-journal-list", okc,
+               "JournalManager::clear drops every sealed-journal item (and the keyspace handles in their watermarks)" if okc else
+               "JournalManager::clear leaves the sealed-journal items in place: their watermarks hold keyspace handles (supervisor -> journal manager -> item -> keyspace -> supervisor), so the lock guard outlives the last handle and every later open returns Locked")
+    fmc = ctx.fn("flush::manager::FlushManager::clear", "R-C17.4")
+    if fmc:
+        okc = any(A.cname(t).endswith("Receiver::<T>::drain") for b, t in fmc.calls()) and any(A.cname(t).endswith("::count") or A.cname(t).endswith("::for_each") or A.cname(t).endswith("::collect") or "drop" in A.cname(t) for b, t in fmc.calls())
+        ctx.ob("R-C17.4", fmc, "flush-manager-clear-drains-the-queue", okc,
+               "FlushManager::clear drains (and consumes) the task queue" if okc else "FlushManager::clear does not consume the queued tasks (a lazy drain() that is never iterated removes nothing): queued tasks keep their keyspace handles alive")
+
     # ---- R-C17.5 a handle that outlives the database cannot re-create the ownership cycle that DatabaseInner::drop broke.
     # Queued worker messages and flush tasks own keyspace handles; a keyspace handle owns the database lock.  If a handle
     # (strongly) owns a queue whose items own handles, a message queued AFTER the drop drained the queues keeps the lock
@@ -475,6 +490,7 @@ def run(ctx):
         true_ret = [b for b, blk in enumerate(hdf.blocks) if not blk["cleanup"] for st_ in blk["s"]
                     if st_["rv"]["k"] == "agg" and st_["rv"].get("variant") == "Ok" and any((o.get("const") or {}).get("val") is True for o in st_["rv"]["ops"])]
         deciding = {}
+        decisions = []
         for b, blk in enumerate(hdf.blocks):
             t_ = blk["t"]
             if blk["cleanup"] or t_["k"] != "switch" or t_.get("dty") != "bool":
@@ -495,9 +511,19 @@ def run(ctx):
             while tm.k == "un" and tm.a[0] == "Not":
                 neg = not neg
                 tm = tm.a[1]
+            if tm.k == "call" and str(tm.a[0]).endswith("::ne"):
+                neg = not neg  # `name != X` is true for everything BUT X
             yes = zero if neg else true_t
-            if any(tr in A.reach(hdf, yes) for tr in true_ret):
+            decisions.append((b, yes, names_here))
+        dec_blocks = [d[0] for d in decisions]
+        for b, yes, names_here in decisions:
+            # the name decides ALONE: its "equal" edge answers Ok(true) without needing another comparison to agree (`||`, not `&&`)
+            if any(tr in A.reach(hdf, yes, avoid=[x for x in dec_blocks if x != b]) for tr in true_ret):
                 for nm in names_here:
+                    deciding[nm] = True
+        for _ in ():
+            if False:
+                for nm in ():
                     deciding[nm] = True
         need = {}
         for role, names in laid.items():
